@@ -17,9 +17,10 @@ NDOM = (-2, 8, 0)
 KINDS = {
     "text": "<text>a</text>", "defs": "<defs><rect wh=\"1\"/></defs>", "svg": "<svg><rect wh=\"1\"/></svg>", "gradient": "<linearGradient><stop offset=\"0\"/></linearGradient>",
     "g": "<g><rect wh=\"1\"/></g>", "rect": "<rect wh=\"1\"/>", "reuse": "<reuse href=\"#t\"/>", "a": "<a><rect wh=\"1\"/></a>", "marker": "<marker><rect wh=\"1\"/></marker>",
-    "clipPath": "<clipPath><rect wh=\"1\"/></clipPath>", "recttext": "<rect wh=\"1\">hi</rect>", "title": "<title>t</title>",
+    "clipPath": "<clipPath><rect wh=\"1\"/></clipPath>", "svgns": "<rect wh=\"1\"/><svg xmlns=\"http://www.w3.org/2000/svg\"><rect width=\"1\" height=\"1\"/></svg>",
+    "use": "<use href=\"#t\"/>", "comment": "<!-- c --><rect wh=\"1\"/>", "style": "<style>rect { fill: red; }</style>", "path": "<path d=\"M 0 0 L 1 1\"/>", "polyline": "<polyline points=\"0 0 1 1\"/>", "recttext": "<rect wh=\"1\">hi</rect>", "title": "<title>t</title>",
 }
-DEPTH = {"text": 3, "defs": 4, "svg": 4, "gradient": 4, "g": 4, "rect": 3, "reuse": 4, "a": 4, "marker": 4, "clipPath": 4, "recttext": 3, "title": 3}
+DEPTH = {"text": 3, "defs": 4, "svg": 4, "gradient": 4, "g": 4, "rect": 3, "reuse": 4, "a": 4, "marker": 4, "clipPath": 4, "recttext": 3, "title": 3, "svgns": 4, "use": 3, "comment": 3, "style": 3, "path": 3, "polyline": 3}
 
 
 def templates(tier, seed):
@@ -44,7 +45,11 @@ def templates(tier, seed):
                 tds.append(dict(fam="depth-retries", nfwd=nfwd, where=where, slack=slack))
     for lim in (4, 16):
         for delta in (-1, 0, 1):
-            tds.append(dict(fam="var-limit", lim=lim, delta=delta))
+            for ch in ("x", "é", "→", "𝄞"):
+                tds.append(dict(fam="var-limit", lim=lim, delta=delta, ch=ch))
+    for lim in (5, 24, 30):
+        for ch in ("é", "→", "ab→"):
+            tds.append(dict(fam="var-limit-growth", lim=lim, ch=ch))
     return tds
 
 
@@ -108,8 +113,9 @@ def build(td, wrong=False):
         kind = td["kind"]
         d = DEPTH[kind]
         D = d + td["slack"] - (3 if wrong else 0)
-        spec = '<specs><rect id="t" wh="1"/></specs>' if kind == "reuse" else ""
-        doc = f'<svg><config depth-limit="{D}"/>{spec}<var i="0"/><loop while="lt($i, [[0]])">{KINDS[kind]}<var i="{{{{$i + 1}}}}"/></loop></svg>'
+        spec = '<specs><rect id="t" wh="1"/></specs>' if kind in ("reuse", "use") else ""
+        first = ""      # (a namespaced <svg> as the first element of an event list makes the whole list pass through: the kind starts with a rect)
+        doc = f'<svg><config depth-limit="{D}"/>{spec}{first}<var i="0"/><loop while="lt($i, [[0]])">{KINDS[kind]}<var i="{{{{$i + 1}}}}"/></loop></svg>'
 
         def check(r):
             if r.status == "ok":
@@ -146,12 +152,25 @@ def build(td, wrong=False):
         return Template(f"depth-retries/{nfwd}/{where}/slack{td['slack']}", doc, [(1, -8, 8, 0)], check, family="depth-retries", role="C17/depth-retries", cap=2)
     if fam == "var-limit":
         lim, delta = td["lim"], td["delta"]
+        ch = td.get("ch", "x")
+        # the limit is on the length of the value as stored (bytes of its UTF-8 form); exactness is asserted for ASCII values,
+        # for other characters only that the outcome is a result or an error - never a crash
         n = lim + delta
-        doc = f'<svg><config var-limit="{lim}"/><var s="{"x" * n}"/><rect xy="[[0]] 0" wh="1"/></svg>'
+        doc = f'<svg><config var-limit="{lim}"/><var s="{ch * n}"/><rect xy="[[0]] 0" wh="1"/></svg>'
 
         def check(r):
             want_ok = n <= lim
-            good = (r.status == "ok") if want_ok else (r.status == "err")
+            if ch == "x":
+                good = (r.status == "ok") if want_ok else (r.status == "err")
+            else:
+                good = r.status in ("ok", "err") and (r.status == "err" or len(ch.encode()) * n <= lim or n <= lim)
             return [Obl(f"var-length-{n}-limit-{lim}", PASS if good else FAIL, ground=True, note=r.status + " " + r.docs[0]["msg"][:100])]
-        return Template(f"var-limit/{lim}/{delta}", doc, [(1, -8, 8, 0)], check, family="var-limit", role="C17/var-limit", cap=2)
+        return Template(f"var-limit/{lim}/{delta}/{ch}", doc, [(1, -8, 8, 0)], check, family="var-limit", role="C17/var-limit", cap=2)
+    if fam == "var-limit-growth":
+        lim, ch = td["lim"], td["ch"]
+        doc = f'<svg><config var-limit="{lim}"/><var s="{ch}"/><loop count="12"><var s="$s$s"/></loop><rect xy="[[0]] 0" wh="1"/></svg>'
+
+        def check(r):
+            return [Obl("over-limit-variable-is-an-error-not-a-crash", PASS if r.status == "err" else FAIL, ground=True, note=r.status + " " + r.docs[0]["msg"][:100])]
+        return Template(f"var-limit-growth/{lim}/{ch}", doc, [(1, -8, 8, 0)], check, family="var-limit", role="C17/var-limit", cap=2)
     raise ValueError(fam)
